@@ -187,3 +187,33 @@ Definition announced_count (tr : list (Z * event)) : nat :=
 (* clock: t0 <= first event <= second <= ... *)
 Fixpoint clock_ok (t : Z) (tr : list (Z * event)) : Prop :=
   match tr with [] => True | (now, _) :: r => (t <= now)%Z /\ clock_ok now r end.
+
+(* ---------- round 5: fairness with bounded overtaking, capacity per step ---------- *)
+
+(* Go's select picks at random among the ready channels: once the timer's value is in the channel, up
+   to [k] other loop events (notifications, received batches) may still be taken before the pass, each
+   within [lat] of the previous event. *)
+Fixpoint fair_run_k (c : cfg) (lat : Z) (k : nat) (st : state) (tprev : Z) (n : nat) (tr : list (Z * event)) : Prop :=
+  match tr with
+  | [] => True
+  | (now, ev) :: r =>
+    (forall due, timer_due st = Some due -> (now <= due + lat)%Z) /\
+    (timer_chan st = true -> (now <= tprev + lat)%Z /\ (takes_pass st ev = true \/ (n < k)%nat)) /\
+    fair_run_k c lat k (fst (step true c st now ev)) now
+               (if timer_chan st && negb (takes_pass st ev) then S n else 0%nat) r
+  end.
+
+(* number of announce records held (every announcement is stored twice) *)
+Definition table_size (l : lru) : nat := fold_right (fun e a => (length (e_val e) + a)%nat) 0%nat l.
+
+(* the announces cache has room for every batch at the moment it is processed *)
+Definition ev_cap (c : cfg) (st : state) (ev : event) : Prop :=
+  match ev with
+  | ENotify _ _ _ interested _ _ => (N.of_nat (table_size (ann st) + 2 * length interested) <= c_hash_limit c)%N
+  | _ => True
+  end.
+Fixpoint cap_ok (c : cfg) (st : state) (tr : list (Z * event)) : Prop :=
+  match tr with
+  | [] => True
+  | (now, ev) :: r => ev_cap c st ev /\ cap_ok c (fst (step true c st now ev)) r
+  end.
